@@ -681,3 +681,34 @@ class ReachingDefs(object):
                 n = self.cfg.nodes[i]
                 out.append("L%d:%s" % (n.lineno, src(n.ast).split("\n")[0][:50] if n.ast is not None else n.kind))
         return out
+
+
+def expr_guards(root, target):
+    """Conditions that must hold for sub-expression `target` of `root` to be evaluated:
+    [(expr_src, truth)] from enclosing IfExp tests and short-circuit BoolOps."""
+    out = []
+
+    def rec(e, acc):
+        if e is target:
+            out.extend(acc)
+            return True
+        if isinstance(e, ast.IfExp):
+            if rec(e.test, acc):
+                return True
+            if rec(e.body, acc + [(f, t) for x, t in decompose(e.test, True) for f in [src(x)]]):
+                return True
+            return rec(e.orelse, acc + [(f, t) for x, t in decompose(e.test, False) for f in [src(x)]])
+        if isinstance(e, ast.BoolOp):
+            cur = list(acc)
+            for v in e.values:
+                if rec(v, cur):
+                    return True
+                truth = isinstance(e.op, ast.And)
+                cur = cur + [(src(x), t) for x, t in decompose(v, truth)]
+            return False
+        for c in ast.iter_child_nodes(e):
+            if rec(c, acc):
+                return True
+        return False
+    rec(root, [])
+    return out
